@@ -8,7 +8,8 @@ IMPORTS = ["SocVerif.Props.C11"]
 
 def run(rep, tier):
     lib.proof_gate(rep, PROP, THEOREMS, IMPORTS)
-    n, cyc = (240, 40) if tier == "quick" else (20000, 60)
+    n, cyc = (240, 40) if tier == "quick" else (80000, 60)
+    n = rep.scale(n)
     agg = runner.correspondence(rep, prop=PROP, mod_name="harness.regsim", driver_kind="reg", ncases=n, extra=(cyc,),
                                 nontrivial=lambda r: r["stats"]["nested"] and r["stats"]["fields"] >= 3,
                                 sample_fmt=lambda r: {"register": r["lines"][0], "layout": r["obs"][0], "cycles": r["lines"][1:4], "observed": r["obs"][1:4]},
